@@ -210,6 +210,7 @@ def run(R):
     # blocked-all (is_blocked waits for every dependency)
     common.blocked_all(R, ro, "C04.BLOCKED-ALL")
     common.step_only_unblocked(R, ro, "C04.STEP-UNBLOCKED")
+    common.unwind_flag_reset(R, ro, "C04.UNWIND-FLAG")
     R.require_min("C04.EXEC-BEFORE-FLUSH", 1)
     R.require_min("C04.REVISIT", 3)
 
